@@ -13,6 +13,8 @@ LEVEL = "exploration"
 
 
 def rpcs(L):
+    if L > 1000:  # more lines than the default request size: several requests at the default, too
+        return [1, 7, 256, 1023, 1024, 1025, L, 4096]
     if L > 20:  # the many-chunks product: a read touches up to L chunks
         return [1, 2, 3, 7, 33, L - 1, L, 1024]
     return list(range(1, L + 5)) + [1024, 10**9]
@@ -90,6 +92,9 @@ def plan(tier):
                 cases.append({"level": level, "L": L, "P": 3, "fs": fs, "cache_rpc": None})
             if L == 6:
                 cases.append({"level": level, "L": 100, "P": 2, "fs": "mcfs", "cache_rpc": None})
+                cases.append({"level": level, "L": 1100 if level == "1.5" else 1030, "P": 2, "fs": "mcfs", "cache_rpc": None})
+                if tier == "thorough":
+                    cases.append({"level": level, "L": 2500, "P": 1, "fs": "local", "cache_rpc": 100})
             for cache_rpc in (1, 2, 4096) if tier == "thorough" else (2,):
                 cases.append({"level": level, "L": L, "P": 3, "fs": "local", "cache_rpc": cache_rpc})
     return cases
@@ -98,7 +103,7 @@ def plan(tier):
 def run(res, tier, seed):
     res.rule = (
         "L in 1..6 (thorough: 1..10) x rpc in {1..L+4, 1024, 1e9} x level {1.1 (C*8), 1.5 (IU2)}, three images of different size (shorter and longer than the first) per product;"
-        " plus a 100-line product (reads touching up to 100 chunks) at rpc {1,2,3,7,33,99,100,1024}; every tree fully loaded and compared leaf by leaf with the rpc=1 tree (all pairs for L<=3); cache legs open the"
+        " plus a 100-line product (reads touching up to 100 chunks) at rpc {1,2,3,7,33,99,100,1024} and a 1100-line (1.5) / 1030-line (1.1) product at rpc {1,7,256,1023,1024,1025,L,4096}; every tree fully loaded and compared leaf by leaf with the rpc=1 tree (all pairs for L<=3); cache legs open the"
         " same product after create_cache=True at another rpc. Every case compares >= 8 trees, all non-trivial."
     )
     res.assumptions = ["identity of all pairs for L>3 follows from comparison with rpc=1 by transitivity"]
